@@ -32,8 +32,16 @@ def run(prop, modname, mods, kernels=False, c02_mods=(), note="", extra_assumpti
         r["id"] = r["id"].replace("C02/", f"{prop}/def:", 1)
         for o in r["obligations"]:
             o["id"] = o["id"].replace("C02/", f"{prop}/def:", 1)
+    from . import glue_part
+    own_post = post
+
+    def both(report, results, coverage):
+        if own_post:
+            own_post(report, results, coverage)
+        if prop in glue_part.PATTERNS:
+            glue_part.run(prop, report, coverage)
     return enginea_prop.run(prop, jobs, f"DESIGN 4/{prop}", extra_assumptions=extra_assumptions, functions_note=note,
-                            extra_results=lres + c02res, post=post, t_start=t_start)
+                            extra_results=lres + c02res, post=both, t_start=t_start)
 
 
 PK_FILTER = {}
